@@ -5,6 +5,8 @@ identity.
 op encodings (JSON lists):
   ['ADD', a]  ['ADDF', a, forward]  ['REMOVE', i]  ['REPLACE', i, a]  ['DOTSET', a]  ['DOTVAL', a]
   ['DOTNONE', a]  ['TOSTRING', ic]
+  ['SELF', i]     replace_child(c, c): a child replaced by itself (also what e.xml_x = e.xml_x does)
+  ['FOREIGN', a]  remove(c) / replace_child(c, new) with c a child of ANOTHER element of the same class
 a = element name; i = index into the harness's own list of live children (insertion order,
 replacements substituted); i == len(live) addresses a child that is not present.
 """
@@ -18,7 +20,7 @@ import z3
 
 from . import lib, symx, lang
 
-KINDS = ['ADD', 'ADDF', 'REMOVE', 'REPLACE', 'DOTSET', 'DOTVAL', 'DOTNONE', 'TOSTRING']
+KINDS = ['ADD', 'ADDF', 'REMOVE', 'REPLACE', 'DOTSET', 'DOTVAL', 'DOTNONE', 'TOSTRING', 'SELF', 'FOREIGN']
 
 DOCUMENTED = ('XMLElement', 'XMLChildContainer', 'XSD')
 INTERNAL = ('NotImplementedError', 'IndexError', 'KeyError', 'RecursionError', 'NameError', 'UnboundLocalError',
@@ -57,7 +59,7 @@ def classify_exception(e, op_kind):
 
 
 class Step:
-    __slots__ = ('op', 'ok', 'exc', 'where', 'bad', 'out', 'text', 'msg')
+    __slots__ = ('op', 'ok', 'exc', 'where', 'bad', 'out', 'text', 'msg', 'foreign')
 
     def __init__(self, op):
         self.op = op
@@ -68,6 +70,7 @@ class Step:
         self.out = ''
         self.text = None
         self.msg = ''
+        self.foreign = None
 
 
 class World:
@@ -163,6 +166,21 @@ class World:
                     self.dead.append(found)
             elif k == 'TOSTRING':
                 st.text = e.to_string(intelligent_choice=bool(op[1]))
+            elif k == 'SELF':
+                c = self.live[op[1]] if op[1] < len(self.live) else self.absent()
+                e.replace_child(c, c)
+            elif k == 'FOREIGN':
+                other = lib.make(self.name)
+                oc = self.mk(op[1])
+                self.made.pop(id(oc), None)
+                other.add_child(oc)
+                before = ([id(x) for x in other.get_children(ordered=True)], [id(x) for x in other.get_children(ordered=False)])
+                try:
+                    e.remove(oc)
+                finally:
+                    after = ([id(x) for x in other.get_children(ordered=True)], [id(x) for x in other.get_children(ordered=False)])
+                    if before != after or oc.get_parent() is not other:
+                        st.foreign = 'the other element lost or orphaned its child'
             else:
                 raise RuntimeError('bad op %r' % (op,))
             st.ok = True
@@ -302,7 +320,7 @@ class Picker:
     def pick(self, w, j):
         eng = self.eng
         kind = KINDS[eng.choose('kind%d' % j, lambda: (z3.Int('k%d' % j), self._among(z3.Int('k%d' % j), self.kidx)))]
-        if kind in ('ADD', 'ADDF', 'REPLACE', 'DOTSET', 'DOTVAL', 'DOTNONE'):
+        if kind in ('ADD', 'ADDF', 'REPLACE', 'DOTSET', 'DOTVAL', 'DOTNONE', 'FOREIGN'):
             idxs = self.sidx if kind == 'DOTVAL' else list(range(len(self.A)))
             if not idxs:
                 raise symx.Abort()
@@ -312,10 +330,12 @@ class Picker:
         if kind == 'ADDF':
             f = eng.choose('fwd%d' % j, lambda: (z3.Int('f%d' % j), [z3.Int('f%d' % j) >= self.fwd[0], z3.Int('f%d' % j) <= self.fwd[1]]))
             return ['ADDF', sym, f]
-        if kind in ('REMOVE', 'REPLACE'):
+        if kind in ('REMOVE', 'REPLACE', 'SELF'):
             hi = min(len(w.live), self.maxpos)
             pos = eng.choose('pos%d' % j, lambda: (z3.Int('p%d' % j), [z3.Int('p%d' % j) >= 0, z3.Int('p%d' % j) <= hi]))
-            return ['REMOVE', pos] if kind == 'REMOVE' else ['REPLACE', pos, sym]
+            return [kind, pos] if kind != 'REPLACE' else ['REPLACE', pos, sym]
+        if kind == 'FOREIGN':
+            return ['FOREIGN', sym]
         if kind in ('DOTSET', 'DOTVAL', 'DOTNONE'):
             return [kind, sym]
         if kind == 'TOSTRING':
